@@ -2,5 +2,10 @@
 
 package sweeper
 
+import "github.com/PowerDNS/lightningstream/lmdbenv/header"
+
 // verifYield is a no-op unless built with the "verif" tag (verification harness only).
 func verifYield(*Sweeper, string) {}
+
+// verifCutoff returns the cutoff unchanged unless built with the "verif" tag.
+func verifCutoff(_ *Sweeper, ts header.Timestamp) header.Timestamp { return ts }
